@@ -39,6 +39,9 @@ int main(int argc, const char *argv[]) {
                  std::strcmp(argv[i], "--trace") == 0) {
         trace = true;
       } else if (std::strcmp(argv[i], "--max-cycles") == 0) {
+        if (i + 1 >= argc) {
+          throw std::runtime_error(std::string("missing argument to ")+argv[i]);
+        }
         maxCycles = std::stoull(argv[++i]);
       } else if (std::strcmp(argv[i], "-h") == 0 ||
                  std::strcmp(argv[i], "--help") == 0) {
